@@ -18,6 +18,7 @@ Literal, total, executable mirror of
   and the non-indenting `Writer`.
 
 External calls are parameters (`Ext`): `Timestamp::parse` ∘ `fmt_timestamp` (property C14 owns them).
+Tracks /repo at 7fbc5bc (integers: `parse_integer`, since 7ec6a52; text: CR written as `&#13;`, since 7fbc5bc).
 The lookahead state `peeked` / `next_slot` of `Deserializer` is the head of the remaining event list here:
 `peek_event` = look at the head, `consume_peeked` / `next_event` = drop it; `Empty` is expanded by `deEvents`.
 -/
